@@ -90,3 +90,62 @@ Theorem C11_strong_count_reads_count :
        vle (caus_of e me) (caus_of e' me) /\ get_arc e' k = Some s.
 Proof. exact arc_count_post_acquires. Qed.
 Print Assumptions C11_strong_count_reads_count.
+
+(* ==== appended by tools/mkprops.py (APPEND table) ==== *)
+
+Require Import LV.Base LV.VV LV.VVFacts LV.Path LV.PathSpec LV.PathTerm LV.PathDistinct LV.PathApi LV.Prog LV.Objects LV.Exec LV.Atomic LV.Ops LV.Check LV.CountFacts.
+
+(* Reference count = live handles, over whole runs (CountFacts.v) *)
+(* every run whose handle uses are disciplined (no clone into an occupied slot, no try_unwrap racing a drop of the same handle: both impossible in safe Rust): count = live handles + drops in flight *)
+Theorem C11_run_count_inv :
+  forall (fuel : nat) (p : prog) (pa : path),
+       run_disc fuel (init_exec p pa) = true -> count_inv (fst (run fuel (init_exec p pa))).
+Proof. exact run_count_inv. Qed.
+Print Assumptions C11_run_count_inv.
+
+(* strong_count returns exactly that number *)
+Theorem C11_strong_count_is_live_handles :
+  forall (e : exec) (me : nat) (t : thread) (k : nat) (e' : exec),
+       arc_inv e ->
+       k < length (e_h e) ->
+       get_thread e me = Some t ->
+       exec_micro e me (MArcCountPost k) = MOk e' ->
+       e_log e' = LOp (t_body t) (t_pc t) (RVal (N.of_nat (live e k + pend e k))) :: e_log e.
+Proof. exact strong_count_is_live_handles. Qed.
+Print Assumptions C11_strong_count_is_live_handles.
+
+(* the value is destroyed exactly by the drop that removes the last handle *)
+Theorem C11_final_drop_iff_last_handle :
+  forall (e : exec) (me : nat) (t : thread) (k : nat) (u : bool) (rest : list micro)
+         (e' : exec),
+       arc_inv e ->
+       k < length (e_h e) ->
+       nth_error (e_threads e) me = Some t ->
+       t_cont t = MArcDecPost k u :: rest ->
+       exec_micro (pop e me rest) me (MArcDecPost k u) = MOk e' ->
+       destroys e e' k <-> live e k = 0 /\ pend e k = 1.
+Proof. exact final_drop_iff_last_handle. Qed.
+Print Assumptions C11_final_drop_iff_last_handle.
+
+(* the 'already released' failure is unreachable *)
+Theorem C11_no_double_release :
+  forall (e : exec) (me : nat) (t : thread) (k : nat) (u : bool) (rest : list micro),
+       arc_inv e ->
+       k < length (e_h e) ->
+       nth_error (e_threads e) me = Some t ->
+       t_cont t = MArcDecPost k u :: rest ->
+       forall e2 : exec,
+       exec_micro (pop e me rest) me (MArcDecPost k u) <> MFail e2 PanicArcReleased.
+Proof. exact no_double_release. Qed.
+Print Assumptions C11_no_double_release.
+
+(* try_unwrap / get_mut succeed exactly for a unique handle *)
+Theorem C11_try_unwrap_iff_unique :
+  forall (e : exec) (k i : nat) (s : arc_state),
+       arc_inv e ->
+       k < length (e_h e) ->
+       get_arc e k = Some s ->
+       slot_present e k i = true -> (arc_cnt s =? 1) = true <-> live e k = 1 /\ pend e k = 0.
+Proof. exact try_unwrap_iff_unique. Qed.
+Print Assumptions C11_try_unwrap_iff_unique.
+
